@@ -483,6 +483,9 @@ cdef class StratifiedSFCNNPS(NNPS):
                 else:
                     current_hmax_level[key_stripped] = fmax(current_hmax_level[key_stripped], h_ptr[pid])
 
+            if num_particles == 0:
+                continue
+
             pid = current_pids[0]
             key = current_keys[0]
 
@@ -620,7 +623,9 @@ cdef class StratifiedSFCNNPS(NNPS):
             (self.xmax.data[1] - self.xmin.data[1])),
             (self.xmax.data[2] - self.xmin.data[2]))
 
-        cdef int max_num_cells = (<int> ceil(max_length/self.hmin))
+        cdef int max_num_cells = 1
+        if self.hmin > 0:
+            max_num_cells = (<int> ceil(max_length/self.hmin))
 
         self.max_num_bits = 1 + 3*(<int> ceil(log2(max_num_cells)))
 
@@ -767,6 +772,10 @@ cdef class StratifiedSFCNNPS(NNPS):
         cdef uint64_t key_stripped, strip_mask
 
         strip_mask = (1 << self.max_num_bits) - 1
+
+        if curr_num_particles == 0:
+            # nothing to index for an empty array
+            return
 
         key = current_keys[0]
         level = key >> self.max_num_bits
